@@ -2,9 +2,9 @@
 //! over the updates of a case and reports the physical lines of the output
 //! file after termination, each parsed back (JSON / CSV / text) to a canonical
 //! record token. Same case grammar as oracle/eng_c17file.ml (see there).
-use crate::util::ops;
+use crate::util::{ops, opt_tok};
 use rotonda::comms::Gate;
-use rotonda::ingress::{IngressId, Register};
+use rotonda::ingress::{IngressId, IngressInfo, Register};
 use rotonda::manager::{Component, Coordinator, TargetCommand};
 use rotonda::payload::{Payload, RotondaPaMap, RotondaRoute, Update, UpstreamStatus};
 use rotonda::roto_runtime::types::{LogEntry, OutputStreamMessage, RouteContext};
@@ -145,6 +145,23 @@ impl Ings {
         if tok == "-" { None } else { let k: usize = tok.parse().unwrap(); Some(self.ids.get(k).copied().unwrap_or(1_000_000 + k as u32)) }
     }
 }
+
+/// the 8 fields of an IngressInfo (unit parent addr asn rib file name desc, '-' = unset)
+pub fn info_of(f: &[&str]) -> IngressInfo {
+    assert!(f.len() == 8, "ing: 8 fields expected");
+    let n = |t: &str| t.parse::<u32>().unwrap();
+    let mut i = IngressInfo::new();
+    i.unit_name = opt_tok(f[0], |t| format!("s{t}"));
+    i.parent_ingress = opt_tok(f[1], n);
+    i.remote_addr = opt_tok(f[2], |t| ip_of(n(t)));
+    i.remote_asn = opt_tok(f[3], |t| inetnum::asn::Asn::from_u32(n(t)));
+    i.rib_type = opt_tok(f[4], |t| match n(t) % 3 { 0 => routecore::bmp::message::RibType::AdjRibIn, 1 => routecore::bmp::message::RibType::AdjRibOut, _ => routecore::bmp::message::RibType::LocRib });
+    i.filename = opt_tok(f[5], |t| std::path::PathBuf::from(format!("s{t}")));
+    i.name = opt_tok(f[6], |t| format!("s{t}"));
+    i.desc = opt_tok(f[7], |t| format!("s{t}"));
+    i
+}
+
 
 pub fn opt_n<T: std::str::FromStr>(t: &str) -> Option<T> where T::Err: std::fmt::Debug {
     if t == "-" { None } else { Some(t.parse::<T>().unwrap()) }
@@ -405,11 +422,19 @@ pub struct FileRun { pub content: Vec<u8>, pub ok: bool }
 /// link queue is known to be drained; otherwise the gate goes away) and reads
 /// the file.
 pub fn run_file_target(fmt: &str, updates: Vec<Update>, term: bool) -> FileRun {
+    let ings = Arc::new(rotonda::verif::ingress::new_register());
+    run_file_target_steps(fmt, updates.into_iter().map(Step::Up).collect(), term, ings)
+}
+
+/// one step of a file-out case: an update through the gate, or a call on the shared
+/// ingress register (what the ingress units do between the target's messages)
+pub enum Step { Up(Update), Info(IngressId, IngressInfo) }
+
+pub fn run_file_target_steps(fmt: &str, steps: Vec<Step>, term: bool, ings: Arc<Register>) -> FileRun {
     let path = tmp_path();
     let rt = tokio::runtime::Builder::new_current_thread().enable_all().build().unwrap();
     let ok = rt.block_on(async {
-        let ings = Arc::new(rotonda::verif::ingress::new_register());
-        let component = Component::verif_new("file-out", "file-out", ings);
+        let component = Component::verif_new("file-out", "file-out", ings.clone());
         let runner = FileRunner::verif_new(fmt, path.clone(), component).expect("format");
         // queue of 1: a later send completes only after the earlier update was taken by the target
         let (gate, mut agent) = Gate::new(1);
@@ -419,8 +444,11 @@ pub fn run_file_target(fmt: &str, updates: Vec<Update>, term: bool) -> FileRun {
         let waitpoint = coordinator.clone().track("file-out".to_string());
         let h = tokio::spawn(runner.run(link, cmd_rx, waitpoint));
         let _ = gate.process_until(coordinator.wait(|_, _| {})).await;
-        for u in updates {
-            gate.update_data(u).await;
+        for st in steps {
+            match st {
+                Step::Up(u) => gate.update_data(u).await,
+                Step::Info(id, info) => { ings.verif_update_info(id, info); }
+            }
         }
         if term {
             // two no-op updates: when the second is accepted the first was received,
@@ -442,16 +470,21 @@ pub fn run_file_target(fmt: &str, updates: Vec<Update>, term: bool) -> FileRun {
     FileRun { content, ok }
 }
 
-pub struct Case { pub fmt: String, pub term: bool, pub updates: Vec<Update> }
+pub struct Case { pub fmt: String, pub term: bool, pub steps: Vec<Step>, pub reg: Arc<Register> }
 
 pub fn parse_case(line: &str) -> Case {
-    let ings = Ings::new();
-    let mut c = Case { fmt: "json".into(), term: true, updates: vec![] };
+    let mut ings = Ings::new();
+    let mut c = Case { fmt: "json".into(), term: true, steps: vec![], reg: ings.reg.clone() };
     for op in ops(line) {
         match op[0] {
             "fmt" => c.fmt = match op[1] { "jsonmin" => "json-min".into(), x => x.to_string() },
             "end" => c.term = op[1] == "T",
-            _ => if let Some(u) = update_of(&op, &ings) { c.updates.push(u) } else { panic!("bad op {:?}", op) },
+            "name" | "tpl" | "qos" => {}
+            // ids are handed out here (the messages need them); the entries are written when the step runs
+            "ing" => { let id = ings.reg.verif_register(); ings.ids.push(id); c.steps.push(Step::Info(id, info_of(&op[1..]))); }
+            "reg" => { let id = ings.reg.verif_register(); ings.ids.push(id); }
+            "G" => c.steps.push(Step::Info(ings.resolve(op[1]).expect("G: ingress expected"), info_of(&op[2..]))),
+            _ => if let Some(u) = update_of(&op, &ings) { c.steps.push(Step::Up(u)) } else { panic!("bad op {:?}", op) },
         }
     }
     c
@@ -459,7 +492,7 @@ pub fn parse_case(line: &str) -> Case {
 
 pub fn run_case(line: &str) -> String {
     let c = parse_case(line);
-    let r = run_file_target(&c.fmt, c.updates, c.term);
+    let r = run_file_target_steps(&c.fmt, c.steps, c.term, c.reg);
     let mut out: Vec<String> = vec![];
     let text = String::from_utf8_lossy(&r.content).to_string();
     let mut rest = text.as_str();
@@ -476,7 +509,7 @@ pub fn special(name: &str, args: &[String]) -> bool {
     if name != "c17-dump" { return false; }
     // c17-dump <case>: raw file content, for debugging the engine
     let c = parse_case(&args.join(" "));
-    let r = run_file_target(&c.fmt, c.updates, c.term);
+    let r = run_file_target_steps(&c.fmt, c.steps, c.term, c.reg);
     println!("ok={} bytes={}", r.ok, r.content.len());
     print!("{}", String::from_utf8_lossy(&r.content));
     true
